@@ -942,7 +942,11 @@ func checkMain(p Property, tier string) int {
 	}
 	b, _ := json.MarshalIndent(ev, "", " ")
 	os.MkdirAll(filepath.Join(outDir(), "evidence"), 0o755)
-	if err := os.WriteFile(filepath.Join(outDir(), "evidence", id+".json"), append(b, '\n'), 0o644); err != nil {
+	evName := id + ".json"
+	if strings.Contains(total.CapNote, "DEV_FILTER") {
+		evName = id + ".partial.json" // a development run restricted by a filter is not evidence: never overwrite the record
+	}
+	if err := os.WriteFile(filepath.Join(outDir(), "evidence", evName), append(b, '\n'), 0o644); err != nil {
 		fmt.Fprintf(os.Stderr, "HARNESS-ERROR cannot write evidence: %v\n", err)
 		return 2
 	}
